@@ -28,7 +28,10 @@ MANIFEST = dict(
     design="5 (C14)")
 
 ABSENT = [-1]
-NOOBJ = {"full": ABSENT, "epoch": ABSENT, "upstream": ABSENT, "revision": ABSENT}
+NOKEY = [ABSENT, ABSENT, ABSENT]
+BADKEY = [[-2], [-2], [-2]]         # the object does not behave like a fresh one built from its full_version
+NOOBJ = {"full": ABSENT, "epoch": ABSENT, "upstream": ABSENT, "revision": ABSENT, "key": NOKEY}
+PROBES = ("1.0-1", "1:0")           # fixed versions the object is ordered against (same signs as a fresh object)
 CLASSES = ("Version", "NativeVersion", "BaseVersion")
 ATTR = {"full": "full_version", "epoch": "epoch", "upstream": "upstream_version", "revision": "debian_revision"}
 
@@ -89,7 +92,7 @@ class SymMap:
         return [self.m.get(c, c) for c in seq]
 
     def obj(self, o):
-        return {k: self.cp(v) for k, v in o.items()}
+        return {k: ([self.cp(x) for x in v] if k == "key" else self.cp(v)) for k, v in o.items()}
 
     def to_json(self):
         return {str(k): v for k, v in self.m.items()}
@@ -108,23 +111,107 @@ def get_class(name):
     return getattr(debian_support, name)
 
 
-def observe(v):
-    """projection: (four attributes as code points, message about str()/alias inconsistency)"""
+_probe_cache = {}
+
+
+def probes(cls):
+    """fixed probe versions of the same class (never assigned to, so they cannot be stale)"""
+    if cls not in _probe_cache:
+        _probe_cache[cls] = [cls(p) for p in PROBES]
+    return _probe_cache[cls]
+
+
+def comparable(cls):
+    from debian.debian_support import BaseVersion
+    return getattr(cls, "_compare", None) is not BaseVersion._compare
+
+
+def warm(v):
+    """call hash / == / < on the object BEFORE an assignment, so that any lazily cached comparison
+    key or hash exists and would go stale"""
     if v is None:
-        return dict(NOOBJ), None
+        return
+    try:
+        hash(v)
+        if comparable(type(v)):
+            p = probes(type(v))[0]
+            v == p
+            v < p
+            p < v
+    except Exception:
+        pass
+
+
+def signs(a, b):
+    return (a < b, a == b, a > b, b < a)
+
+
+_fresh_signs = {}
+
+
+def fresh_signs(cls, fresh):
+    """how a fresh object of this text orders against the probes (memoised: fresh objects are never
+    assigned to)"""
+    k = (cls, fresh.full_version)
+    if k not in _fresh_signs:
+        if len(_fresh_signs) > 50000:
+            _fresh_signs.clear()
+        _fresh_signs[k] = [signs(fresh, p) for p in probes(cls)]
+    return _fresh_signs[k]
+
+
+def coherence(v):
+    """KeyFresh, observed behaviourally: v is indistinguishable from a fresh object built from
+    v.full_version.  Returns (key projection, note): the fresh object's parsed components when v
+    behaves like it, BADKEY and what differed otherwise"""
+    cls = type(v)
+    try:
+        fresh = cls(v.full_version)
+        key = [enc(fresh.epoch), enc(fresh.upstream_version), enc(fresh.debian_revision)]
+        for a in ("epoch", "upstream_version", "debian_revision", "debian_version", "full_version"):
+            if getattr(v, a) != getattr(fresh, a):
+                return BADKEY, "%s is %r, a fresh %s(%r) has %r" % (a, getattr(v, a), cls.__name__, fresh.full_version, getattr(fresh, a))
+        if str(v) != str(fresh):
+            return BADKEY, "str(v) = %r, a fresh object gives %r" % (str(v), str(fresh))
+        if hash(v) != hash(fresh):
+            return BADKEY, "hash(v) differs from the hash of a fresh %s(%r)" % (cls.__name__, fresh.full_version)
+        if comparable(cls):
+            sg = signs(v, fresh)
+            if sg != (False, True, False, False) or v != fresh:
+                return BADKEY, "v compared with a fresh %s(%r): (v<f, v==f, v>f, f<v) = %r" % (
+                    cls.__name__, fresh.full_version, sg)
+            from debian.debian_support import version_compare
+            if version_compare(v, fresh) != 0:
+                return BADKEY, "version_compare(v, fresh %r) = %r" % (fresh.full_version, version_compare(v, fresh))
+            for p, want in zip(probes(cls), fresh_signs(cls, fresh)):
+                if signs(v, p) != want:
+                    return BADKEY, "(v<p, v==p, v>p, p<v) against p = %s is %r, for a fresh %s(%r) it is %r" % (
+                        p.full_version, signs(v, p), cls.__name__, fresh.full_version, want)
+        return key, None
+    except Exception as e:      # observation
+        return BADKEY, "comparing with a fresh object raised %s: %s" % (type(e).__name__, e)
+
+
+def observe(v, deep=True):
+    """projection: (four attributes as code points + behavioural key, message about str()/alias
+    inconsistency, note about KeyFresh); the note is not a verdict by itself: the specification
+    decides through obs["key"] (unspecified states are adopted whatever they are)"""
+    if v is None:
+        return dict(NOOBJ), None, None
     try:
         o = {"full": enc(v.full_version), "epoch": enc(v.epoch), "upstream": enc(v.upstream_version),
              "revision": enc(v.debian_revision)}
         alias = enc(v.debian_version)
         s = enc(str(v))
     except Exception as e:      # observation, not a harness failure
-        return {"full": [-2], "epoch": [-2], "upstream": [-2], "revision": [-2]}, \
-            "reading the attributes raised %s: %s" % (type(e).__name__, e)
+        return {"full": [-2], "epoch": [-2], "upstream": [-2], "revision": [-2], "key": BADKEY}, \
+            "reading the attributes raised %s: %s" % (type(e).__name__, e), None
+    o["key"], note = coherence(v) if deep else (None, None)     # None: not observed at this step
     if s != o["full"]:
-        return o, "str(v) = %s but full_version = %s" % (show(s), show(o["full"]))
+        return o, "str(v) = %s but full_version = %s" % (show(s), show(o["full"])), note
     if alias != o["revision"]:
-        return o, "debian_version = %s but debian_revision = %s" % (show(alias), show(o["revision"]))
-    return o, None
+        return o, "debian_version = %s but debian_revision = %s" % (show(alias), show(o["revision"])), note
+    return o, None, note
 
 
 def outcome(fn):
@@ -179,7 +266,7 @@ def expected_parts(case, t):
     pos += len(d["upstream"])
     if d["revision"] != ABSENT:
         rev = t[pos + 1:pos + 1 + len(d["revision"])]
-    return {"full": list(t), "epoch": ep, "upstream": up, "revision": rev}
+    return {"full": list(t), "epoch": ep, "upstream": up, "revision": rev, "key": [ep, up, rev]}
 
 
 def check_case(clsname, t, valid, unspec, exp, stats=None):
@@ -199,33 +286,43 @@ def check_case(clsname, t, valid, unspec, exp, stats=None):
             clsname, show(t), getattr(v, "full_version", None))
     if not valid:
         return None
-    o, msg = observe(v)
+    o, msg, note = observe(v)
     if msg:
         return "%s(%s): %s" % (clsname, show(t), msg)
     if o != exp:
-        return "%s(%s): object is %s, the specification decomposes it as %s" % (clsname, show(t), fmt(o), fmt(exp))
+        return "%s(%s): object is %s, the specification decomposes it as %s%s" % (
+            clsname, show(t), fmt(o), fmt(exp), "; " + note if note else "")
     if recomposed(o) != list(t):
         return "%s(%s): components recompose to %s" % (clsname, show(t), show(recomposed(o)))
     return None
 
 
 def fmt(o):
-    return "[full=%s epoch=%s upstream=%s revision=%s]" % tuple(show(o[k]) for k in ("full", "epoch", "upstream", "revision"))
+    out = "[full=%s epoch=%s upstream=%s revision=%s" % tuple(show(o[k]) for k in ("full", "epoch", "upstream", "revision"))
+    if o.get("key") == BADKEY:
+        out += " STALE/incoherent"
+    elif "key" in o and o["key"] != [o["epoch"], o["upstream"], o["revision"]]:
+        out += " key=(%s)" % ", ".join(show(k) for k in o["key"])
+    return out + "]"
 
 
 # ------------------------------------------------------------------ (b) LTS replay
 
-def run_path(clsname, start, path, sm, aliases, stats=None):
+def run_path(clsname, start, path, sm, aliases, stats=None, deep=True):
     """replay a model behaviour; start = model object to construct directly (NOOBJ: none);
-    returns None or a message (verdict observables only)"""
+    returns None or a message (verdict observables only).  deep=False: the behavioural comparison
+    with a fresh object (KeyFresh) is made after the last step only (hash / == / < are still
+    called before every assignment)"""
     cls = get_class(clsname)
     v = None
+    before = dict(NOOBJ)
     if start["full"] != ABSENT:
         v, res = do_op(cls, None, "construct", sm.cp(start["full"]))
-        o, msg = observe(v)
+        o, msg, note = observe(v)
         if res != "ok" or msg or o != sm.obj(start):
-            return "step 0: %s(%s) -> %s %s, the specification says %s" % (
-                clsname, show(sm.cp(start["full"])), res, msg or fmt(o), fmt(sm.obj(start)))
+            return "step 0: %s(%s) -> %s %s, the specification says %s%s" % (
+                clsname, show(sm.cp(start["full"])), res, msg or fmt(o), fmt(sm.obj(start)), "; " + note if note else "")
+        before = o
     for i, e in enumerate(path):
         op, val = e["op"], sm.cp(e["args"][0])
         where = "step %d %s %s%s" % (i + 1, clsname, "%s = " % ATTR[op] if op in ATTR else op + " ", show(val))
@@ -240,21 +337,31 @@ def run_path(clsname, start, path, sm, aliases, stats=None):
             if stats is not None:
                 stats[res] = stats.get(res, 0) + 1
             continue
-        before, _ = observe(v)
+        warm(v)                  # hash / == / < before the call: cached keys now exist
         v, res = do_op(cls, v, op, val, aliases[i % len(aliases)])
         if res != e["res"]:
             return "%s: outcome %s, the specification says %s (object before: %s)" % (where, res, e["res"], fmt(before))
-        o, msg = observe(v)
+        o, msg, note = observe(v, deep or i == len(path) - 1)
         exp = sm.obj(e["to"])
         if msg:
             return "%s: %s" % (where, msg)
+        if o["key"] is None:
+            o["key"] = exp["key"]
         if o != exp:
+            if Attrs(o) == Attrs(exp):
+                return "%s (%s, object before: %s): the object is %s but does not behave like a fresh one: %s" % (
+                    where, res, fmt(before), fmt(exp), note)
             if res == "ValueError":
                 return "%s: ValueError but the object changed from %s to %s" % (where, fmt(before), fmt(o))
             return "%s: object is %s, the specification says %s" % (where, fmt(o), fmt(exp))
         if res == "ok" and recomposed(o) != o["full"]:
             return "%s: components of %s recompose to %s" % (where, fmt(o), show(recomposed(o)))
+        before = o
     return None
+
+
+def Attrs(o):
+    return [o[k] for k in ("full", "epoch", "upstream", "revision")]
 
 
 # ------------------------------------------------------------------ (c) trace recording
@@ -348,8 +455,8 @@ def record_trace(rng, clsname, s=None, nops=None):
     s = gen_string(rng) if s is None else s
     events = []
     v, res = do_op(cls, None, "construct", s)
-    o, msg = observe(v)
-    events.append({"op": "construct", "v": s, "res": res, "obs": o, "alias": False, "msg": msg})
+    o, msg, note = observe(v)
+    events.append({"op": "construct", "v": s, "res": res, "obs": o, "alias": False, "msg": msg, "note": note})
     n = rng.randint(0, 8) if nops is None else nops
     while v is not None and res in ("ok", "ValueError") and len(events) <= n:
         op = rng.choice(["epoch", "upstream", "revision", "epoch", "upstream", "revision", "full", "copy"])
@@ -357,9 +464,10 @@ def record_trace(rng, clsname, s=None, nops=None):
         if op == "full" and val == ABSENT:
             val = []
         alias = rng.random() < 0.5
+        warm(v)
         v, res = do_op(cls, v, op, val, alias)
-        o, msg = observe(v)
-        events.append({"op": op, "v": val, "res": res, "obs": o, "alias": alias, "msg": msg})
+        o, msg, note = observe(v)
+        events.append({"op": op, "v": val, "res": res, "obs": o, "alias": alias, "msg": msg, "note": note})
     return {"cls": clsname, "events": events}
 
 
@@ -371,17 +479,19 @@ def re_record(t):
     for e in t["events"]:
         if e["op"] != "construct" and v is None:
             break
+        warm(v)
         v, res = do_op(cls, v, e["op"], e["v"], e.get("alias", False))
-        o, msg = observe(v)
-        events.append({"op": e["op"], "v": e["v"], "res": res, "obs": o, "alias": e.get("alias", False), "msg": msg})
+        o, msg, note = observe(v)
+        events.append({"op": e["op"], "v": e["v"], "res": res, "obs": o, "alias": e.get("alias", False), "msg": msg, "note": note})
         if res not in ("ok", "ValueError"):
             break
     return {"cls": t["cls"], "events": events}
 
 
-def _o(full, ep, up, rev):
+def _o(full, ep, up, rev, key=None):
     f = lambda x: ABSENT if x is None else [ord(c) for c in x]
-    return {"full": f(full), "epoch": f(ep), "upstream": f(up), "revision": f(rev)}
+    return {"full": f(full), "epoch": f(ep), "upstream": f(up), "revision": f(rev),
+            "key": [f(x) for x in (key or (ep, up, rev))]}
 
 
 def _e(op, v, res, obs):
@@ -418,6 +528,9 @@ def control_traces():
     variant(5, res="ok", obs=_o(":4-1-3", "", "4-1", "3"))              # empty epoch accepted
     variant(6, res="ok", obs=_o("1.0\n", None, "1.0", None))            # trailing newline accepted
     variant(7, obs=_o("4-1", None, "4-1", None))                        # not re-decomposed
+    variant(1, obs=_o("5:2.0-3", "5", "2.0", "3", key=("1", "2.0", "3")))     # stale comparison key after an assignment
+    variant(7, obs=_o("4-1", None, "4", "1", key=(None, "4-1", "3")))        # stale key after revision = None
+    variant(2, obs=dict(_o("5:2.0-3", "5", "2.0", "3"), key=BADKEY))    # incoherent after a rejected assignment
     out.append({"cls": "literal", "events": [_e("construct", "٣:1", "ok", _o("٣:1", "٣", "1", None))]})
     out.append({"cls": "literal", "events": [_e("construct", "a:1", "ok", _o("a:1", None, "a:1", None))]})
     out.append({"cls": "literal", "events": [_e("construct", "1-1", "ValueError", dict(NOOBJ))]})
@@ -472,6 +585,7 @@ def spec_negative_controls(ctx):
         ("UnicodeDigits", "MC_VersionString_bnd_quick.cfg", dict(UnicodeDigits="TRUE", Emit="FALSE", MaxLen=3), "AcceptExact"),
         ("NoRollback", "MC_VersionString_lts_quick.cfg", dict(NoRollback="TRUE", Emit="FALSE", MaxLen=5), "ImplRefines"),
         ("DollarAnchor/lts", "MC_VersionString_lts_quick.cfg", dict(DollarAnchor="TRUE", Emit="FALSE", MaxLen=5), "ImplRefines"),
+        ("StaleKey", "MC_VersionString_lts_quick.cfg", dict(StaleKey="TRUE", Emit="FALSE", MaxLen=5), "KeyFresh"),
     ]
 
     def one(j):
@@ -606,7 +720,7 @@ def run(ctx):
                 start, path = NOOBJ, paths[e["_f"]] + [e]
             else:
                 start, path = e["from"], [e]
-            msg = run_path(clsname, start, path, sm, aliases, assign_stats)
+            msg = run_path(clsname, start, path, sm, aliases, assign_stats, deep=False)
             ctx.case_seen(("edge", e["_f"], e["op"], skey(e["args"])), e["res"] != "unspec")
             n_replayed += 1
             if msg:
@@ -685,6 +799,8 @@ def run(ctx):
         what = "?"
         if ev:
             what = "%s %s -> %s, object %s" % (ev["op"], show(ev["v"]), ev["res"], fmt(ev["obs"]))
+            if ev.get("note"):
+                what += " which does not behave like a fresh one: " + ev["note"]
             if at:
                 what += " (before: %s)" % fmt(t["events"][at - 1]["obs"])
         ctx.violation({"kind": "trace", "trace": t, "first_unexplained_event": at + 1},
